@@ -34,7 +34,7 @@ CLAIMED["C18"] = dict(engine="seqx+dsched", technique="exhaustive enumeration of
     text="Every one of the 4032 attribute tuples is built through every order of the constructors, must intern to one pointer, be injective, and the created queue must report label, QoS class "
          "(platform clamp only for unsupported classes), relative priority; concurrency and initial inactivity are observed behaviourally on 12 representatives. dispatch_get_global_queue is called "
          "on the full cross product of identifiers (all 16-bit values, QoS constants and neighbours, wide values) and flags: defined ids map to the documented class's queue (by label and pointer identity), others to NULL. "
-         "The queue-specific-data / assert half runs 406 small programs (5 hierarchy shapes x every key placement x 7 submission paths incl. sync through levels, redirected items of concurrent queues, apply, async_and_wait, block objects) "
+         "The queue-specific-data / assert half runs 928 small programs (10 hierarchy shapes incl. workloop and main-queue bottoms and a concurrent queue on the default target x every key placement x 8 submission paths incl. sync through levels, redirected items of concurrent queues, apply, async_and_wait, block objects, a suspended queue resumed with items queued) and 5 two-thread set/replace/remove/read scenarios (harness specrace: destructors exactly once, lazy key-list allocation race) "
          "under the scheduler: dispatch_get_specific = nearest level's value, dispatch_queue_get_specific per level, asserts that must hold return, asserts that must fail trap (child exit status).",
     design_ref="DESIGN.md §5 C18", note=SEQ + " " + SC)
 
@@ -49,13 +49,13 @@ def _ds(i, text, ref):
     CLAIMED[i] = dict(engine="dsched", technique=DS_TECH, text=text, design_ref=ref, note=SC)
 _ds("C01", "Client programs (ping-pong, racing async/sync/barrier/group_async/async_and_wait over serial, concurrent, global and chained queues, gated items so that async must not wait, cold pool) are run on the real "
     "library under every schedule within the bound; oracle: each item exactly once, every submission returns, no stuck witness (no enabled thread and no deadline, or virtual horizon passed), no library BUG log, no ASan report.", "DESIGN.md §4 C01")
-_ds("C02", "Mixes of async/sync/barrier/async_and_wait/apply on one serial queue from 2-3 threads under every schedule within the bound; oracle: item intervals pairwise disjoint and FIFO with respect to "
+_ds("C02", "Mixes of async/sync/barrier/async_and_wait/apply on one serial queue from 2-3 threads (incl. the main queue drained after dispatch_main() and serviced by a run loop through the 4CF callback with a nested turn) under every schedule within the bound; oracle: item intervals pairwise disjoint and FIFO with respect to "
     "call/return stamps and program order.", "DESIGN.md §4 C02")
 _ds("C03", "Hierarchies (depth 2-3, fan-in, concurrent inner queues, serial or workloop bottom, inactive queues retargeted twice before activation) with async and sync submissions at several levels; "
     "oracle: all items sharing a serial queue/workloop in their target chains are pairwise disjoint; per-serial-queue FIFO.", "DESIGN.md §4 C03")
 _ds("C04", "Barrier/non-barrier sequences (async, sync, barrier_async, barrier_sync, DISPATCH_BLOCK_BARRIER blocks, apply) on a custom concurrent queue at default width and width 2; oracle: a barrier overlaps nothing, "
     "items submitted before it finish first, items submitted after it start after it.", "DESIGN.md §4 C04")
-_ds("C05", "Every synchronous hand-off edge under contention; oracle: the call's return stamp follows its item's end stamp on every schedule (ordering content of the property; visibility is decided only "
+_ds("C05", "Every synchronous hand-off edge under contention, plus the semaphore, group and once hand-off edges named by the property (core semaphore programs, once and group subsets with their own oracles); oracle: the call's return stamp follows its item's end stamp on every schedule (ordering content of the property; visibility is decided only "
     "under sequential consistency, see level_note).", "DESIGN.md §4 C05")
 _ds("C06", "Suspend/resume/activate scripts and deep sequential nesting histories; oracle: no item starts while suspends-returned minus resumes-called is positive (one committed item allowed per cross-thread "
     "suspend on a serial queue), nothing before activate, everything runs after the last resume (stuck witness otherwise).", "DESIGN.md §4 C06")
